@@ -117,7 +117,14 @@ class ExponentialOfLevyModel(LevyModel):
         self.r = r
         self.d = d
         self.levy_model = levy_model
-        self.omega = -levy_model.levy_exponent(x=-1j).real
+        exponent_at_minus_i = complex(levy_model.levy_exponent(x=-1j))
+        if not np.isfinite(exponent_at_minus_i) or abs(
+            exponent_at_minus_i.imag
+        ) > 1e-12 * max(1.0, abs(exponent_at_minus_i.real)):
+            raise ValueError(
+                "E[exp(L_1)] is not finite for these parameters: no martingale correction"
+            )
+        self.omega = -exponent_at_minus_i.real
         # the imaginary part is 0, we use `.real` to enforce the float type
 
     def __str__(self):
